@@ -363,7 +363,9 @@ def render_item(it, ws=lambda: '') -> str:
     if k in simple:
         return simple[k] + o() + ')'
     if k == 'pi':
-        return 'processing-instruction' + o() + (it[1] + c() if it[1] else ')')
+        # ['pi', name] renders the NCName form, ['pi', name, literal] a StringLiteral spelling (quotes included, blanks
+        # around / inside allowed: the literal is whitespace-normalised like an NCName cast, XPath 3.1 2.5.5.3)
+        return 'processing-instruction' + o() + ((it[2] if len(it) > 2 else it[1]) + c() if it[1] else ')')
     if k == 'doc':
         return 'document-node' + o() + (render_item(it[1], ws) + c() if it[1] else ')')
     if k == 'element':
@@ -717,6 +719,9 @@ def self_test():
     assert m([at('price')], 'attribute(price, xs:anyAtomicType)') and m([at('price')], 'attribute(price, xs:untypedAtomic)')
     assert m([pi], 'processing-instruction()') and m([pi], 'processing-instruction(xml-stylesheet)')
     assert m([pi], 'processing-instruction("xml-stylesheet")') and not m([pi], 'processing-instruction(x)')
+    assert m([pi], 'processing-instruction(" xml-stylesheet  ")') and m([pi], "processing-instruction( ' xml-stylesheet' )")
+    assert not m([pi], 'processing-instruction(" xml-stylesheets ")')
+    assert render_item(['pi', 'p', '" p "']) == 'processing-instruction(" p ")' and parse('processing-instruction(" p ")') == [['pi', 'p'], '']
     assert m([cm], 'comment()') and m([tx], 'text()') and m([tx], 'node()') and not m([tx], 'comment()')
     assert m([doc(cm, el('book'), pi)], 'document-node(element(book))') and m([doc(el('book'))], 'document-node()')
     assert not m([doc(el('book'), el('book'))], 'document-node(element(book))')
